@@ -28,13 +28,13 @@ common.setup_repo_path()
 
 def _bounds(tier):
   if tier == 'thorough':
-    return dict(mc=dict(MaxN=6, MaxK=3, MaxDepth=2, MaxOps=99, MaxSaves=3, MaxGens=3),
-                gen=dict(MaxN=4, MaxK=2, MaxDepth=2, MaxOps=7, MaxSaves=2, MaxGens=3),
-                sim=dict(MaxN=6, MaxK=3, MaxDepth=2, MaxOps=12, MaxSaves=3, MaxGens=4),
+    return dict(mc=dict(MaxN=6, MaxK=3, MaxDepth=2, MaxOps=99, MaxSaves=3, MaxGens=3, MaxBad=1),
+                gen=dict(MaxN=4, MaxK=2, MaxDepth=2, MaxOps=7, MaxSaves=2, MaxGens=3, MaxBad=1),
+                sim=dict(MaxN=6, MaxK=3, MaxDepth=2, MaxOps=12, MaxSaves=3, MaxGens=4, MaxBad=2),
                 sim_num=3000)
-  return dict(mc=dict(MaxN=5, MaxK=3, MaxDepth=2, MaxOps=99, MaxSaves=2, MaxGens=3),
-              gen=dict(MaxN=3, MaxK=2, MaxDepth=2, MaxOps=6, MaxSaves=2, MaxGens=2),
-              sim=dict(MaxN=6, MaxK=3, MaxDepth=2, MaxOps=12, MaxSaves=3, MaxGens=4),
+  return dict(mc=dict(MaxN=5, MaxK=3, MaxDepth=2, MaxOps=99, MaxSaves=2, MaxGens=3, MaxBad=1),
+              gen=dict(MaxN=3, MaxK=2, MaxDepth=2, MaxOps=6, MaxSaves=2, MaxGens=2, MaxBad=1),
+              sim=dict(MaxN=6, MaxK=3, MaxDepth=2, MaxOps=12, MaxSaves=3, MaxGens=4, MaxBad=2),
               sim_num=400)
 
 
@@ -60,11 +60,18 @@ class Subject:
     return None
 
 
+_BAD = []      # unreadable positions of the history being replayed (set by _replay)
+
+
 def _source(n, kind, chain):
   from ml_metrics._src.chainables import io
   data = list(range(n))
   if kind == 'seq':
-    ds = io.SequenceDataSource(data)
+    if _BAD:
+      from checks import c09
+      ds = io.SequenceDataSource(c09.BadSeq(n, _BAD), ignore_error=True)     # unreadable positions are skipped
+    else:
+      ds = io.SequenceDataSource(data)
     for c in chain:
       ds = ds.shard(c['i'], c['k'])
     return ds
@@ -229,7 +236,9 @@ SUBJECTS = [Raw(), Runner(), RunnerInPlace(), RunnerMean(), Chain2(), Chain2AggF
 
 
 def _replay(chk, h, subj):
+  global _BAD
   n, kind, chain = h['n'], h['kind'], h['chain']
+  _BAD = list(h.get('bad') or [])
   ctx = dict(kind='checkpoint', subject=subj.name, history=h)
   try:
     it = subj.build(n, kind, chain)
@@ -252,7 +261,7 @@ def _replay(chk, h, subj):
         want = op['expect'] + subj.offset if op['expect'] >= 0 else -1
         if got != want:
           kindsig = 'repeat-or-skip' if got != -1 and want != -1 else 'early-or-late-end'
-          chk.violation(f'{subj.name}:{kind}:gen{min(gens, 2)}:{kindsig}',
+          chk.violation(f'{subj.name}:{kind}:gen{min(gens, 2)}:{kindsig}' + (':unreadable-positions' if _BAD else ''),
                         f'step {step}: next() gave {got}, uninterrupted run gives {want}; history {h["ops"]}',
                         dict(ctx, step=step, got=got, want=want))
           return False
@@ -273,7 +282,7 @@ def _replay(chk, h, subj):
     return False
   want_rest = [x + subj.offset for x in h['rest']]
   if rest != want_rest:
-    chk.violation(f'{subj.name}:{kind}:gen{min(gens, 2)}:rest',
+    chk.violation(f'{subj.name}:{kind}:gen{min(gens, 2)}:rest' + (':unreadable-positions' if _BAD else ''),
                   f'after {h["ops"]} the iterator yields {rest}, uninterrupted run has {want_rest} left',
                   dict(ctx, got=rest, want=want_rest))
     return False
@@ -475,6 +484,12 @@ def body(chk):
                 tlc.cfg_text(constants=dict(b['gen'], MaxOps=99, Formula='pinned'), invariants=['Exact'],
                              view='View', deadlock=False), timeout=600)
   chk.coverage['pinned_formula_rejected_by_tlc'] = (neg.error_kind == 'invariant')
+  neg2 = tlc.run('source', 'Checkpoint',
+                 tlc.cfg_text(constants=dict(b['gen'], MaxOps=99, Formula='count-delivered'), invariants=['Exact'],
+                              view='View', deadlock=False), timeout=600)
+  chk.coverage['count_delivered_formula_rejected_by_tlc'] = (neg2.error_kind == 'invariant')
+  if neg2.ok:
+    chk.machinery_failure('Checkpoint.tla accepts a position counter that ignores skipped unreadable elements: Exact is vacuous there')
   if neg.ok:
     chk.machinery_failure('Checkpoint.tla accepts the pinned (defective) state formula: invariant Exact is vacuous')
 
